@@ -22,6 +22,7 @@ type vPendingOp struct {
 	name      string
 	cancelled bool
 	delivered bool
+	timedOut  bool // failed by gocbcore itself at its Deadline option
 }
 
 func (o *vPendingOp) Cancel() { o.cancelled = true }
@@ -71,6 +72,7 @@ type vGocb struct {
 	bucketUUID      string
 	vbToServer      func(vbID uint16, replica uint32) (int, error)
 	snapshotErr     error
+	honourDeadline  bool // model gocbcore's Deadline option (see completeDL)
 }
 
 var vG *vGocb
@@ -80,6 +82,35 @@ var vErrImmediate = errors.New("gocbcore: operation could not be dispatched")
 func vNewGocb() *vGocb {
 	vG = &vGocb{numServers: 1, numVbuckets: 4, bucketUUID: "bucket-uuid"}
 	return vG
+}
+
+// completeDL: like complete, for an operation that carries gocbcore's own Deadline
+// option. With honourDeadline set the scripted server follows gocbcore's contract
+// for that option: an operation still unanswered at its Deadline is failed by
+// gocbcore itself (the callback runs once, with a timeout error), and a reply
+// that would come later is dropped.
+func (g *vGocb) completeDL(name string, deadline time.Time, deliver func(), timeout func()) (gocbcore.PendingOp, error) {
+	if !g.honourDeadline || deadline.IsZero() {
+		return g.complete(name, deliver)
+	}
+	t := 0
+	if g.timing != nil {
+		t = g.timing(name)
+	}
+	if t != 2 && t != 3 {
+		return g.complete(name, deliver)
+	}
+	op := &vPendingOp{name: name}
+	g.ops = append(g.ops, op)
+	spawnEnv(func() {
+		if d := time.Until(deadline); d > 0 {
+			time.Sleep(d)
+		}
+		op.delivered = true
+		op.timedOut = true
+		timeout()
+	})
+	return op, nil
 }
 
 func (g *vGocb) complete(name string, deliver func()) (gocbcore.PendingOp, error) {
@@ -173,7 +204,7 @@ func stub__gocbcore_DCPAgent_GetVbucketSeqnos(agent *gocbcore.DCPAgent, serverId
 
 func (g *vGocb) kvOp(c vKVCall, done func(val []byte, cas gocbcore.Cas, err error)) (gocbcore.PendingOp, error) {
 	g.kvCalls = append(g.kvCalls, c)
-	return g.complete(c.op, func() {
+	return g.completeDL(c.op, c.deadline, func() {
 		var val []byte
 		var cas gocbcore.Cas
 		var err error
@@ -181,7 +212,7 @@ func (g *vGocb) kvOp(c vKVCall, done func(val []byte, cas gocbcore.Cas, err erro
 			val, cas, err = g.kv(c)
 		}
 		done(val, cas, err)
-	})
+	}, func() { done(nil, 0, gocbcore.ErrTimeout) })
 }
 
 func stub__gocbcore_Agent_MutateIn(agent *gocbcore.Agent, opts gocbcore.MutateInOptions, cb gocbcore.MutateInCallback) (gocbcore.PendingOp, error) {
